@@ -101,6 +101,9 @@ func (g *seqGen) writes(cols []ColDesc, n int, o uint32, haveOffset bool) []W {
 		if d.Merge != "" && (d.Kind == "int" || d.Kind == "str") && g.rnd.Intn(2) == 0 {
 			k = "mrg"
 		}
+		if d.Merge == "" && d.Kind == "str" && d.Repr == "string" && g.rnd.Intn(4) == 0 {
+			k = "mrg" // a string column without a merge function: the delta replaces the value (the library's default)
+		}
 		if d.Merge == "affine" && haveOffset {
 			key := fmt.Sprintf("%s/%d", d.Name, o)
 			if k == "mrg" {
